@@ -1,2 +1,134 @@
 import Rink.Model.Eval
-/-! property theorems: under construction -/
+import Mathlib.Tactic.Ring
+import Mathlib.Tactic.NormNum
+import Mathlib.Tactic.FieldSimp
+import Mathlib.Data.Rat.Defs
+import Mathlib.Algebra.Order.Field.Rat
+/-!
+# C10 — Temperature scales are exact, mutually inverse affine maps
+
+`Rink/Gen/TempConsts.lean` is regenerated on every run from the compiled code
+(`Degree::name_base_scale`) and the loaded bundled database (`Context::lookup` of the ten
+constants).  `resolved_textbook` is re-checked by the kernel against that table, so a changed
+constant in `definitions.units` or a changed row of `name_base_scale` re-opens it.
+-/
+namespace Rink.Spec
+open Rink Rink.Eval
+
+def kelvinDim : Dim := [("K", 1)]
+
+/-- `x <scale>` as the evaluator computes it: `x·scale + base` -/
+def opDeg (s b x : ℚ) : ℚ := x * s + b
+/-- `T -> <scale>` as the conversion arm computes it: `(T − base) / scale` -/
+def convDeg (s b t : ℚ) : ℚ := (t - b) / s
+
+/-- **round trip**, for any constants with a non-zero scale and every rational `x` -/
+theorem degree_roundtrip (s b x : ℚ) (hs : s ≠ 0) : convDeg s b (opDeg s b x) = x := by
+  unfold convDeg opDeg; field_simp; ring
+
+theorem degree_roundtrip_inv (s b t : ℚ) (hs : s ≠ 0) : opDeg s b (convDeg s b t) = t := by
+  unfold convDeg opDeg; field_simp; ring
+
+/-- (scale, base) of a degree as resolved through the regenerated tables; `none` if a name is
+missing or does not have the dimensionality of temperature -/
+def resolved (d : Degree) : Option (Rat × Rat) :=
+  let (base, scale) := d.baseScale
+  match Gen.tempConsts.lookup scale, Gen.tempConsts.lookup base with
+  | some (sv, sd), some (bv, bd) => if sd = kelvinDim ∧ bd = kelvinDim then some (sv, bv) else none
+  | _, _ => none
+
+/-- the textbook constants: `K = x·scale + base` -/
+def textbook : Degree → Rat × Rat
+  | .celsius => (1, 27315 / 100)
+  | .fahrenheit => (5 / 9, 45967 / 180)
+  | .reaumur => (5 / 4, 27315 / 100)
+  | .romer => (40 / 21, 36241 / 140)
+  | .delisle => (-2 / 3, 37315 / 100)
+  | .newton => (100 / 33, 27315 / 100)
+
+/-- **the code's tables are the textbook's** (kernel-checked against the regenerated file) -/
+theorem resolved_textbook (d : Degree) : resolved d = some (textbook d) := by
+  cases d <;> decide +kernel
+
+/-- the textbook formulas in the form the property states them -/
+theorem textbook_celsius (x : ℚ) : opDeg (textbook .celsius).1 (textbook .celsius).2 x = x + 273.15 := by
+  simp only [textbook, opDeg]; norm_num
+theorem textbook_fahrenheit (x : ℚ) : opDeg (textbook .fahrenheit).1 (textbook .fahrenheit).2 x = (x + 459.67) * 5 / 9 := by
+  simp only [textbook, opDeg]; ring
+theorem textbook_reaumur (x : ℚ) : opDeg (textbook .reaumur).1 (textbook .reaumur).2 x = x * 5 / 4 + 273.15 := by
+  simp only [textbook, opDeg]; ring
+theorem textbook_romer (x : ℚ) : opDeg (textbook .romer).1 (textbook .romer).2 x = (x - 7.5) * 40 / 21 + 273.15 := by
+  simp only [textbook, opDeg]; ring
+theorem textbook_delisle (x : ℚ) : opDeg (textbook .delisle).1 (textbook .delisle).2 x = 373.15 - x * 2 / 3 := by
+  simp only [textbook, opDeg]; ring
+theorem textbook_newton (x : ℚ) : opDeg (textbook .newton).1 (textbook .newton).2 x = x * 100 / 33 + 273.15 := by
+  simp only [textbook, opDeg]; ring
+
+theorem textbook_scale_ne_zero (d : Degree) : (textbook d).1 ≠ 0 := by
+  cases d <;> simp [textbook]
+
+/-- **all 36 pairs**: converting `x` of scale `d₁` to scale `d₂` is the composition of the two
+textbook maps, and the pair `(d, d)` returns `x`. -/
+theorem pair_roundtrip (d : Degree) (x : ℚ) :
+    convDeg (textbook d).1 (textbook d).2 (opDeg (textbook d).1 (textbook d).2 x) = x :=
+  degree_roundtrip _ _ _ (textbook_scale_ne_zero d)
+
+theorem pair_compose (d₁ d₂ d₃ : Degree) (x : ℚ) :
+    let k := opDeg (textbook d₁).1 (textbook d₁).2 x
+    let y := convDeg (textbook d₂).1 (textbook d₂).2 k
+    convDeg (textbook d₃).1 (textbook d₃).2 (opDeg (textbook d₂).1 (textbook d₂).2 y)
+      = convDeg (textbook d₃).1 (textbook d₃).2 k := by
+  intro k y
+  rw [degree_roundtrip_inv _ _ _ (textbook_scale_ne_zero d₂)]
+
+/-! ### the evaluator computes `opDeg` / `convDeg` -/
+
+/-- the suffix operator on a dimensionless exact operand -/
+theorem eval_degree (ctx : Ctx) (d : Degree) (e : Expr) (x s b : Rat)
+    (he : evalExpr ctx e = .ok ⟨.rational x, []⟩)
+    (hs : ctx.lookup d.baseScale.2 = some ⟨.rational s, kelvinDim⟩)
+    (hb : ctx.lookup d.baseScale.1 = some ⟨.rational b, kelvinDim⟩) :
+    evalExpr ctx (.unary (.degree d) e) = .ok ⟨.rational (x * s + b), kelvinDim⟩ := by
+  simp [evalExpr, he, hs, hb, Number.mul, Numeric.mul, Numeric.add, Dim.mul, Dim.merge, kelvinDim]
+
+/-- scale operators are refused on operands that already carry a dimension -/
+theorem degree_refuses_dimensioned (ctx : Ctx) (d : Degree) (e : Expr) (n : Number)
+    (he : evalExpr ctx e = .ok n) (hn : n.unit ≠ []) :
+    evalExpr ctx (.unary (.degree d) e) = .err .generic := by
+  simp [evalExpr, he, hn]
+
+/-- … and inside compound conversion targets -/
+theorem degree_refused_in_target (ctx : Ctx) (d : Degree) (e : Expr) :
+    evalUnitName ctx (.unary (.degree d) e) = .err .generic := by
+  simp [evalUnitName]
+
+/-- the conversion arm `T -> <scale>` -/
+theorem convert_degree (ctx : Ctx) (d : Degree) (top : Expr) (digits : Digits) (t s b : Rat) (hs0 : s ≠ 0)
+    (ht : evalExpr ctx top = .ok ⟨.rational t, kelvinDim⟩)
+    (hs : ctx.lookup d.baseScale.2 = some ⟨.rational s, kelvinDim⟩)
+    (hb : ctx.lookup d.baseScale.1 = some ⟨.rational b, kelvinDim⟩) :
+    ∃ r, evalQuery ctx (.convert top (.degree d) none digits) = .ok r ∧
+      ∀ raw bt nm c bs dg, r = .conversion raw bt nm c bs dg → raw.value = .rational ((t - b) * (1 / s)) := by
+  simp [evalQuery, ht, hs, hb, Numeric.sub, Number.div, hs0, Number.invert, Numeric.div, Numeric.one, Number.mul,
+    Numeric.mul, kelvinDim]
+  intro raw bt nm c bs dg h1 _ _ _ _ _
+  rw [← h1]
+
+/-- a temperature of another dimensionality is a conformance error -/
+theorem convert_degree_mismatch (ctx : Ctx) (d : Degree) (top : Expr) (digits : Digits) (n bottom : Number)
+    (ht : evalExpr ctx top = .ok n) (hs : ctx.lookup d.baseScale.2 = some bottom) (hne : n.unit ≠ bottom.unit) :
+    evalQuery ctx (.convert top (.degree d) none digits) = .err .conformance := by
+  simp [evalQuery, ht, hs, hne]
+
+/-! ### spellings -/
+open Rink.Lex in
+theorem spelling_table :
+    (["degC", "°C", "celsius", "℃"].all fun s => degreeOrKeyword s == .degree .celsius) ∧
+    (["degF", "°F", "fahrenheit", "℉"].all fun s => degreeOrKeyword s == .degree .fahrenheit) ∧
+    (["degRé", "°Ré", "degRe", "°Re", "réaumur", "reaumur"].all fun s => degreeOrKeyword s == .degree .reaumur) ∧
+    (["degRø", "°Rø", "degRo", "°Ro", "rømer", "romer"].all fun s => degreeOrKeyword s == .degree .romer) ∧
+    (["degDe", "°De", "delisle"].all fun s => degreeOrKeyword s == .degree .delisle) ∧
+    (["degN", "°N", "degnewton"].all fun s => degreeOrKeyword s == .degree .newton) := by
+  decide +kernel
+
+end Rink.Spec
